@@ -19,7 +19,7 @@ theorem constStep_sigFin (ev : Ev) (k : ConstKind) (ph : Phase) : SigFin (constS
   unfold constStep at h ⊢
   split <;> simp_all [Op.phase]
 
-theorem leafStep_sigFin (ev : Ev) (i : Nat) (ph : Phase) : SigFin (leafStep specs ev i ph) := by
+theorem leafStep_sigFin (ev : Ev) (i : Nat) (ph : Phase) (nt : Bool) : SigFin (leafStep specs ev i ph nt) := by
   intro o h
   unfold leafStep at h ⊢
   split
@@ -48,19 +48,19 @@ theorem unStep_sigFin (rec : Rec) (ev : Ev) (k : UnKind) (c : Op) (ph : Phase) (
   · exact unWrap_sigFin _ _ _
   · exact sigFin_none
 
-theorem waFinish_sigFin (a b : Op) (st : BinSt) (outs : List Out) : SigFin (waFinish a b st outs) := by
+theorem waFinish_sigFin (k : BinKind) (a b : Op) (st : BinSt) (outs : List Out) : SigFin (waFinish k a b st outs) := by
   intro o h
   unfold waFinish at h ⊢
   split <;> simp_all [Op.phase]
 
-theorem waStep_sigFin (rec : Rec) (ev : Ev) (a b : Op) (st : BinSt) : SigFin (waStep rec ev a b st) := by
+theorem waStep_sigFin (rec : Rec) (ev : Ev) (k : BinKind) (a b : Op) (st : BinSt) : SigFin (waStep rec ev k a b st) := by
   unfold waStep
   split
-  · exact waFinish_sigFin _ _ _ _
+  · exact waFinish_sigFin _ _ _ _ _
   · unfold waStop; split
     · exact sigFin_none
-    · exact waFinish_sigFin _ _ _ _
-  · exact waFinish_sigFin _ _ _ _
+    · exact waFinish_sigFin _ _ _ _ _
+  · exact waFinish_sigFin _ _ _ _ _
   · exact sigFin_none
 
 theorem swFinish_sigFin (a b : Op) (st : BinSt) (outs : List Out) : SigFin (swFinish a b st outs) := by
@@ -112,7 +112,8 @@ theorem binStep_sigFin (rec : Rec) (ev : Ev) (k : BinKind) (a b : Op) (st : BinS
     SigFin (binStep rec ev k a b st) := by
   unfold binStep
   split
-  · exact waStep_sigFin _ _ _ _ _
+  · exact waStep_sigFin _ _ _ _ _ _
+  · exact waStep_sigFin _ _ _ _ _ _
   · exact swStep_sigFin _ _ _ _ _
   · exact seqStep_sigFin _ _ _ _ _ _
 
@@ -124,7 +125,7 @@ theorem signal_finishes (fuel : Nat) (ev : Ev) (op : Op) : SigFin (deliver specs
   | succ n =>
     cases op with
     | const k ph => simp only [deliver]; exact constStep_sigFin _ _ _
-    | leaf i ph => simp only [deliver]; exact leafStep_sigFin _ _ _ _
+    | leaf i ph nt => simp only [deliver]; exact leafStep_sigFin _ _ _ _ _
     | un k c ph env => simp only [deliver]; exact unStep_sigFin _ _ _ _ _ _
     | bin k a b st => simp only [deliver]; exact binStep_sigFin _ _ _ _ _ _
 
@@ -132,11 +133,11 @@ theorem signal_finishes (fuel : Nat) (ev : Ev) (op : Op) : SigFin (deliver specs
 theorem finished_inert (fuel : Nat) (ev : Ev) (op : Op) (h : op.phase = .finished) :
     (deliver specs fuel ev op).1 = op ∧ (deliver specs fuel ev op).2.2 = none := by
   cases fuel with
-  | zero => simp [deliver]
+  | zero => simp [deliver, h]
   | succ n =>
     cases op with
     | const k ph => simp only [Op.phase] at h; subst h; cases ev <;> simp [deliver, constStep]
-    | leaf i ph => simp only [Op.phase] at h; subst h; cases ev <;> simp [deliver, leafStep]
+    | leaf i ph nt => simp only [Op.phase] at h; subst h; cases ev <;> simp [deliver, leafStep]
     | un k c ph env => simp only [Op.phase] at h; subst h; cases ev <;> simp [deliver, unStep]
     | bin k a b st =>
       simp only [Op.phase] at h
@@ -151,7 +152,7 @@ theorem idle_silent (fuel : Nat) (ev : Ev) (op : Op) (h : op.phase = .idle)
   | const k ph =>
     simp only [Op.phase] at h; subst h
     cases ev <;> simp_all [deliver, constStep]
-  | leaf i ph =>
+  | leaf i ph nt =>
     simp only [Op.phase] at h; subst h
     cases ev <;> simp_all [deliver, leafStep]
   | un k c ph env =>
